@@ -11,7 +11,9 @@ CLAIM = {
           "valid-base-type-before-division and fuel arguments are the bounds the Go code relies on. The typed-file listener, the raw decoder, DecodeWithContext, listeners and "
           "one-byte readers are exercised by the Go oracle under recover() and a watchdog on the same inputs (no theorem in this file: C13 proves the typed Reset total, C16 models "
           "the raw decoder). Raw decoder: for every byte stream every slice it takes from its fixed array has length <= 130051 (C03_raw_slices_fit, "
-          "C03_raw_lengths_bounded) and the array declared in raw.go, translated on every run, is that long (C03_raw_array_suffices). A deterministic boundary corpus (largest "
+          "C03_raw_lengths_bounded) and the array declared in raw.go, translated on every run, is that long (C03_raw_array_suffices); the raw decoder model stops on every byte "
+          "string -- each loop iteration consumes at least one byte, the model's fuel is never exhausted -- and never reaches its 'impossible' branches (C03_raw_total). "
+          "'Never fakes success' has its theorems under C04 (Decode accepts only CRC codewords) and C16 (what the full decoder accepts the raw decoder segments identically). A deterministic boundary corpus (largest "
           "possible message; every declared size 0..9 x every base type x both byte orders for eight well-known fields) runs first.",
   "note": NOTE_COMMON + " Component expansion uses primitive floats (never a source of Panic). Float containers in makeBits and >4 GiB streams are outside the model."}
 
